@@ -67,6 +67,18 @@ pub fn gen(tier: &str, r: &mut Rng) -> Vec<String> {
             push(&mut out, r, s.into_bytes(), "delete");
         }
     }
+    // every cell of the atom_site rows x a fixed set of odd values (always, in both tiers): empty and blank quoted
+    // strings, quoted non-ASCII, missing values, non-numbers, out-of-range and non-integral numbers
+    if let Some(first_cell) = toks.iter().rposition(|(a, _)| a.starts_with("_atom_site.")).map(|i| i + 1) {
+        for i in first_cell..toks.len() {
+            if toks[i].0 == "#" { break; }
+            for t in ["''", "' '", "'\u{e9}'", "\"\u{e9} \"", "?", ".", "1e400", "abc", "-1", "1.5", "'A'", "0"] {
+                let mut s = String::new();
+                for (j, (a, b)) in toks.iter().enumerate() { s.push_str(if i == j { t } else { a }); s.push_str(b); }
+                push(&mut out, r, s.into_bytes(), "cell");
+            }
+        }
+    }
     // structural faults
     for f in ["", "data_", "data_x", "data_x loop_", "data_x\nloop_\n", "data_x\nloop_\n1 2 3", "data_x loop_ _a", "data_x loop_ _a _b 1 2 3", "data_x _a", "data_x _a 'unterminated", "data_x _a \"x\ny\"",
         "data_x _a\n;never closed\n", "data_x save_f _a 1", "data_x save_f _a 1 save_", "data_x save_f loop_ _a 1 2 save_", "data_x save_", "x", "#only a comment", "data_x data_y _a 1", "data_x _a 1 data_y",
